@@ -29,6 +29,9 @@ pub enum Phase {
     ThreadsSuspended,
     BeforeResume,
     AfterResume,
+    /// right before / after the attach of the very thread the signal is sent to
+    BeforeAttachOfTarget,
+    AfterAttachOfTarget,
 }
 
 #[derive(Debug, Clone, PartialEq, Eq, Hash, Serialize, Deserialize)]
@@ -36,7 +39,7 @@ pub struct Sig {
     pub phase: Phase,
     /// index among the sleeper threads
     pub thread: u16,
-    /// slot: 0 SIGUSR1, 1 SIGHUP, 2..5 SIGRTMIN+0..3
+    /// slot: 0 SIGUSR1, 1 SIGHUP, 2..5 SIGRTMIN+0..3, 6 SIGTRAP, 7 SIGURG
     pub slot: u8,
     pub count: u8,
 }
@@ -72,18 +75,24 @@ enum RPhase {
     AfterResume,
 }
 
+/// slots 0, 1, 6, 7 are classic (coalescing) signals, 2..5 queued realtime signals
 fn signo_of(slot: u8) -> i32 {
-    match slot % 6 {
+    match slot % 8 {
         0 => libc::SIGUSR1,
         1 => libc::SIGHUP,
+        6 => libc::SIGTRAP,
+        7 => libc::SIGURG,
         k => libc::SIGRTMIN() + (k as i32 - 2),
     }
+}
+fn is_classic(slot: usize) -> bool {
+    slot % 8 < 2 || slot % 8 >= 6
 }
 
 fn send_signal(pid: i32, tid: i32, slot: u8, payload: i32) -> bool {
     let signo = signo_of(slot);
     unsafe {
-        if slot % 6 < 2 {
+        if is_classic(slot as usize) {
             libc::syscall(libc::SYS_tgkill, pid, tid, signo) == 0
         } else {
             let mut si: libc::siginfo_t = std::mem::zeroed();
@@ -174,17 +183,17 @@ fn judge_signals(t: &Target, sleepers: &[(u32, i32)], all_ids: &[u32], sent: &Se
     loop {
         let mut short: Option<(i32, usize, u64, u64)> = None;
         for (id, tid) in sleepers {
-            for slot in 0..6 {
+            for slot in 0..8 {
                 let s = sent.counts[*id as usize][slot].load(Ordering::SeqCst);
                 let d = t.sigcount(*id, slot) - base[*id as usize][slot];
                 if d > s {
                     return Err(Some(("signal-duplicated".into(), format!("thread {tid} slot {slot}: sent {s}, delivered {d}"))));
                 }
-                let enough = if slot < 2 { s == 0 || d >= 1 } else { d == s };
+                let enough = if is_classic(slot) { s == 0 || d >= 1 } else { d == s };
                 if !enough {
                     short = Some((*tid, slot, s, d));
                 }
-                if slot >= 2 && d == s {
+                if !is_classic(slot) && d == s {
                     let ps = sent.payload[*id as usize][slot].load(Ordering::SeqCst);
                     let pd = t.sigpayload(*id, slot);
                     let _ = (ps, pd);
@@ -196,7 +205,7 @@ fn judge_signals(t: &Target, sleepers: &[(u32, i32)], all_ids: &[u32], sent: &Se
             if sleepers.iter().any(|(s, _)| s == id) {
                 continue;
             }
-            for slot in 0..6 {
+            for slot in 0..8 {
                 if t.sigcount(*id, slot) != 0 {
                     return Err(Some(("signal-to-wrong-thread".into(), format!("thread id {id} received a signal in slot {slot}"))));
                 }
@@ -291,13 +300,15 @@ pub fn check(c: &Case) -> Verdict {
             let phase = match &s.phase {
                 Phase::BeforeAttachOf(k) => RPhase::BeforeAttach(attach_order[((*k as usize) * attach_order.len()) >> 16]),
                 Phase::AfterAttachOf(k) => RPhase::AfterAttach(attach_order[((*k as usize) * attach_order.len()) >> 16]),
+                Phase::BeforeAttachOfTarget => RPhase::BeforeAttach(tid),
+                Phase::AfterAttachOfTarget => RPhase::AfterAttach(tid),
                 Phase::BeforeDump => RPhase::BeforeDump,
                 Phase::ThreadsEnumerated => RPhase::ThreadsEnumerated,
                 Phase::ThreadsSuspended => RPhase::ThreadsSuspended,
                 Phase::BeforeResume => RPhase::BeforeResume,
                 Phase::AfterResume => RPhase::AfterResume,
             };
-            (phase, id, tid, s.slot % 6, s.count % 5 + 1)
+            (phase, id, tid, s.slot % 8, s.count % 5 + 1)
         })
         .collect();
     let fire = {
@@ -553,17 +564,19 @@ pub fn check_storm(c: &StormCase) -> Verdict {
 
 pub fn case_strategy() -> impl Strategy<Value = Case> {
     let phase = prop_oneof![
-        Just(Phase::BeforeDump),
-        Just(Phase::ThreadsEnumerated),
-        any::<u16>().prop_map(Phase::BeforeAttachOf),
-        any::<u16>().prop_map(Phase::AfterAttachOf),
-        Just(Phase::ThreadsSuspended),
-        Just(Phase::BeforeResume),
-        Just(Phase::AfterResume),
+        1 => Just(Phase::BeforeDump),
+        1 => Just(Phase::ThreadsEnumerated),
+        1 => any::<u16>().prop_map(Phase::BeforeAttachOf),
+        1 => any::<u16>().prop_map(Phase::AfterAttachOf),
+        1 => Just(Phase::ThreadsSuspended),
+        1 => Just(Phase::BeforeResume),
+        1 => Just(Phase::AfterResume),
+        3 => Just(Phase::BeforeAttachOfTarget),
+        2 => Just(Phase::AfterAttachOfTarget),
     ];
     (
         proptest::collection::vec(prop_oneof![5 => Just(K_SLEEPER), 2 => Just(K_PARKED), 1 => Just(K_SPINNER), 2 => Just(K_EXITER)], 1..13),
-        proptest::collection::vec((phase, any::<u16>(), 0u8..6, 0u8..5).prop_map(|(phase, thread, slot, count)| Sig { phase, thread, slot, count }), 0..10),
+        proptest::collection::vec((phase, any::<u16>(), 0u8..8, 0u8..5).prop_map(|(phase, thread, slot, count)| Sig { phase, thread, slot, count }), 0..10),
         proptest::bool::weighted(0.4),
         proptest::collection::vec(0u8..32, 0..4),
         any::<bool>(),
@@ -593,7 +606,7 @@ pub fn run(ctx: &mut LaneCtx) {
         SubSpec {
             name: "faults-and-signals",
             cases: (64, 2_000),
-            rule: "per generated scenario (1..12 sleeper/parked/spinner/exiter threads, signal schedule of up to 9 entries over 7 phase points x thread x {SIGUSR1,SIGHUP,SIGRTMIN+0..3} x count 1..5, StopProcess fail point on/off, exiters cued at the threads-enumerated hook): one fault-free dump with the schedule, then EVERY destination call failing as I/O error and as panic (exhaustive per scenario), sampled fail-point subsets and two natural hard errors; after each of them the liveness predicate, after the first the signal accounting; every scenario is non-trivial; distinct = hash of scenario",
+            rule: "per generated scenario (1..12 sleeper/parked/spinner/exiter threads, signal schedule of up to 9 entries over 7 phase points (with extra weight on the attach of the signalled thread itself) x thread x {SIGUSR1,SIGHUP,SIGTRAP,SIGURG,SIGRTMIN+0..3} x count 1..5, StopProcess fail point on/off, exiters cued at the threads-enumerated hook): one fault-free dump with the schedule, then EVERY destination call failing as I/O error and as panic (exhaustive per scenario), sampled fail-point subsets and two natural hard errors; after each of them the liveness predicate, after the first the signal accounting; every scenario is non-trivial; distinct = hash of scenario",
             strategy: case_strategy().boxed(),
             max_shrink_iters: 40,
             log_current: true,
